@@ -1,6 +1,7 @@
 //! C12 — client: batch results are positional (WS client through the mock transport, HTTP client
 //! through an injected `RpcServiceT` layer that returns scripted reply texts; no sockets).
 use jrpc_harness::client_mock::*;
+use jrpc_harness::client_spell::*;
 use jrpc_harness::common::*;
 use jsonrpsee_core::client::{BatchResponse, ClientT, Error, IdKind, MiddlewareBatchResponse, MiddlewareMethodResponse, MiddlewareNotifResponse};
 use jsonrpsee_core::middleware::{Batch, Notification, Request, RpcServiceBuilder, RpcServiceT};
@@ -245,6 +246,14 @@ fn run_ws_case(out: &mut Out, lines: &[String]) {
 					}
 				}
 			}
+			if w[1] == "deliverx" && obs.literal.is_none() {
+				// a reply array with an element that is no legal message: nothing may be handed to a batch
+				nontrivial = true;
+				out.count("near-miss.delivered");
+				if obs.fatal.is_none() || !obs.comps.is_empty() {
+					verdict = Err(format!("a reply that is no legal message was accepted: {}", obs.render()));
+				}
+			}
 			if w[1] == "deliver" {
 				let reply = String::from_utf8(unhex(w[2])).unwrap_or_default();
 				for (op, comp) in &obs.comps {
@@ -285,16 +294,47 @@ fn run_http_case(out: &mut Out, lines: &[String]) {
 	let w: Vec<&str> = lines[0].split(' ').collect();
 	let str_ids = w.get(3) == Some(&"str");
 	let script = Script::default();
-	let client = HttpClientBuilder::default()
-		.id_format(if str_ids { IdKind::String } else { IdKind::Number })
+	// options word: `mc=<max_concurrent_requests>,t=<request timeout secs>` (neither limits these sequential histories)
+	let mut builder = HttpClientBuilder::default().id_format(if str_ids { IdKind::String } else { IdKind::Number });
+	if let Some(opts) = w.get(4) {
+		for kv in opts.split(',') {
+			match kv.split_once('=') {
+				Some(("mc", v)) => builder = builder.max_concurrent_requests(v.parse().unwrap_or(1usize).max(1)),
+				Some(("t", v)) => builder = builder.request_timeout(std::time::Duration::from_secs(v.parse().unwrap_or(60u64).max(60))),
+				_ => {}
+			}
+		}
+	}
+	let client = builder
 		.set_rpc_middleware(RpcServiceBuilder::new().layer(ScriptLayer(script.clone())))
 		.build("http://127.0.0.1:9")
 		.expect("http client builds without connecting");
 	let rt = tokio::runtime::Builder::new_current_thread().enable_time().build().unwrap();
 	out.line(lines[0].clone(), "case".into(), Ok(()), false);
 	for line in &lines[1..] {
-		let w: Vec<&str> = line.split(' ').collect();
+		let mut w: Vec<&str> = line.split(' ').collect();
+		// `batchx` / `tbatchx` / `callx`: the same operation, the reply is no legal message and must make the call fail
+		let must_fail = matches!(w.get(1).copied(), Some("batchx") | Some("tbatchx") | Some("callx"));
+		if must_fail {
+			w[1] = &w[1][..w[1].len() - 1];
+		}
 		match (w[0], w.get(1).copied()) {
+			("hc", Some("notify")) => {
+				let res = rt.block_on(async { client.notification("m", ArrayParams::new()).await });
+				out.count("http.notification");
+				out.line(line.clone(), if res.is_ok() { "-".into() } else { "E:notify".into() }, Ok(()), false);
+			}
+			("hc", Some("subscribe")) => {
+				use jsonrpsee_core::client::SubscriptionClientT;
+				let res = rt.block_on(async { client.subscribe::<Box<RawValue>, _>("sub", ArrayParams::new(), "unsub").await.map(|_| ()) });
+				out.count("http.subscribe");
+				let shown = match res {
+					Err(Error::HttpNotImplemented) => "E:http-not-implemented".to_string(),
+					Ok(()) => "subscribed".to_string(),
+					Err(e) => classify_err(&e).render(),
+				};
+				out.line(line.clone(), shown, Ok(()), false);
+			}
 			("hc", Some("batch")) | ("hc", Some("tbatch")) => {
 				let ty: Option<String> = if w[1] == "tbatch" { Some(w[2].to_string()) } else { None };
 				let (n_at, r_at) = if ty.is_some() { (3, 4) } else { (2, 3) };
@@ -323,6 +363,11 @@ fn run_http_case(out: &mut Out, lines: &[String]) {
 					verdict = Err(format!("http batch ids on the wire: {ids:?} for n={n}"));
 				} else if let Err(e) = batch_oracle(ids[0], n, &reply, &comp, ty.as_deref()) {
 					verdict = Err(e);
+				} else if must_fail {
+					out.count("near-miss.delivered");
+					if matches!(comp, Comp::Batch { .. }) {
+						verdict = Err(format!("a reply that is no legal message was accepted by the http batch: {comp:?}"));
+					}
 				} else if is_complete_reply(ids[0], n, &reply) && all_decodable(&reply, ty.as_deref()) && !matches!(comp, Comp::Batch { .. }) {
 					verdict = Err(format!("a complete, correct reply made the http batch fail: {comp:?}"));
 				}
@@ -348,9 +393,13 @@ fn run_http_case(out: &mut Out, lines: &[String]) {
 				let sent_id = serde_json::from_str::<Value>(&sent).ok().and_then(|v| v.get("id").cloned());
 				let reply_id = serde_json::from_str::<Value>(&reply).ok().and_then(|v| v.get("id").cloned());
 				let verdict = match &comp {
+					Comp::Ok(_) if must_fail => Err(format!("http call accepted a reply that is no legal message: {reply}")),
 					Comp::Ok(_) if sent_id != reply_id => Err(format!("http call with id {sent_id:?} accepted a reply with id {reply_id:?}")),
 					_ => Ok(()),
 				};
+				if must_fail {
+					out.count("near-miss.delivered");
+				}
 				out.count("http.call");
 				out.line(line.clone(), comp.render(), verdict, matches!(comp, Comp::Ok(_)));
 			}
@@ -378,7 +427,9 @@ fn id_json(rng: &mut Rng, n: u64, str_ids: bool) -> String {
 
 fn entry(rng: &mut Rng, id: &str, tag: u64) -> String {
 	let j = if rng.chance(1, 10) { "" } else { "\"jsonrpc\":\"2.0\"," };
-	match rng.below(8) {
+	match rng.below(10) {
+		8 => format!("{{{j}\"id\":{id},\"result\":{}}}", odd_result(rng)),
+		9 => format!("{{{j}\"id\":{id},\"error\":{}}}", odd_error(rng)),
 		0 => format!("{{{j}\"id\":{id},\"error\":{{\"code\":-32000,\"message\":\"e{tag}\"}}}}"),
 		1 => format!("{{{j}\"id\":{id},\"error\":{{\"code\":{tag},\"message\":\"\",\"data\":[{tag}]}}}}"),
 		2 => format!("{{{j}\"result\":{{\"v\":{tag}}},\"id\":{id}}}"),
@@ -598,6 +649,28 @@ fn gen_reply(rng: &mut Rng, out: &mut Out, start: u64, n: usize, str_ids: bool, 
 	format!("[{}]", parts.join(","))
 }
 
+/// a complete reply for `start..start+n` in which one element is replaced by a text that is no legal message
+fn gen_near_reply(rng: &mut Rng, out: &mut Out, start: u64, n: usize, str_ids: bool) -> String {
+	let mut parts: Vec<String> = (0..n as u64)
+		.map(|i| {
+			let idj = if str_ids { format!("\"{}\"", start + i) } else { (start + i).to_string() };
+			entry(rng, &idj, i)
+		})
+		.collect();
+	let victim = rng.below(n as u64) as usize;
+	let idj = if str_ids { format!("\"{}\"", start + victim as u64) } else { (start + victim as u64).to_string() };
+	loop {
+		let (name, text) = near_miss(rng, &idj);
+		// (as an array element: objects only — a bare `[]` or scalar element is covered by `reply.garbage-element`)
+		if text.starts_with('{') {
+			out.count(name);
+			parts[victim] = text;
+			break;
+		}
+	}
+	format!("[{}]", parts.join(","))
+}
+
 fn single_reply(rng: &mut Rng, id: u64, str_ids: bool) -> String {
 	let idj = if str_ids { format!("\"{id}\"") } else { id.to_string() };
 	entry(rng, &idj, id)
@@ -616,7 +689,15 @@ fn pick_type(rng: &mut Rng, raw_only: bool) -> Option<(&'static str, u64)> {
 /// One WS case: calls and batches in flight together, answered in random order.
 fn gen_ws_case(rng: &mut Rng, out: &mut Out, caseno: u64, perm_case: Option<(usize, Vec<usize>)>) -> Vec<String> {
 	let str_ids = rng.chance(1, 3);
-	let mut lines = vec![format!("case {caseno} client {} 4 64", if str_ids { "str" } else { "num" })];
+	let cap = rng.range(1, 4);
+	let fcap = if perm_case.is_some() { 64 } else { pick_fcap(rng, |k| out.count(k)) };
+	let opts = case_opts(rng, |k| out.count(k));
+	let mut lines = vec![format!("case {caseno} client {} {cap} {fcap}{opts}", if str_ids { "str" } else { "num" })];
+	let gate_shut = perm_case.is_none() && rng.chance(1, 10);
+	if gate_shut {
+		out.count("config.gate-shut-while-sending");
+		lines.push("cl gate shut".into());
+	}
 	let mut next_id = 0u64;
 	// (kind, start, n, type): kind 0 = call, 1 = batch, 2 = batch answered with the given permutation
 	let mut open: Vec<(u8, u64, usize, Option<(&'static str, u64)>)> = vec![];
@@ -638,6 +719,40 @@ fn gen_ws_case(rng: &mut Rng, out: &mut Out, caseno: u64, perm_case: Option<(usi
 			open.push((0, next_id, 1, None));
 			next_id += 1;
 		}
+		// the rest of the API in between: notifications, subscriptions, handlers, is_connected
+		if perm_case.is_none() && rng.chance(1, 3) {
+			match rng.below(5) {
+				0 => {
+					out.count("api.notification");
+					lines.push("cl notify".into());
+					next_id += 1;
+				}
+				1 => {
+					out.count("api.subscribe");
+					lines.push("cl subscribe".into());
+					open.push((3, next_id, 1, None));
+					next_id += 2;
+				}
+				2 => {
+					out.count("api.subscribe_to_method");
+					lines.push(format!("cl regnotif {}", hexs(*rng.pick(&["m", "other", "sub"]))));
+				}
+				3 => lines.push("cl connected".into()),
+				_ => {
+					// the second time: the same batch again
+					out.count("second.identical-batch");
+					let n = rng.range(1, 3) as usize;
+					for _ in 0..2 {
+						lines.push(format!("cl batch {n}"));
+						open.push((1, next_id, n, None));
+						next_id += 1;
+					}
+				}
+			}
+		}
+	}
+	if gate_shut {
+		lines.push("cl gate open".into());
 	}
 	if perm_slot.is_some() {
 		perm_slot = None;
@@ -650,13 +765,31 @@ fn gen_ws_case(rng: &mut Rng, out: &mut Out, caseno: u64, perm_case: Option<(usi
 		if rng.chance(1, 12) {
 			continue; // omitted
 		}
+		if kind == 1 && rng.chance(1, 12) {
+			// an element that is no legal message: the connection is given up, then the API once more
+			let text = gen_near_reply(rng, out, start, n, str_ids);
+			lines.push(format!("cl deliverx {}", hexs(&text)));
+			out.count("second.api-after-connection-given-up");
+			lines.push(format!("cl batch {}", rng.range(1, 3)));
+			lines.push("cl connected".into());
+			break;
+		}
 		let text = match kind {
 			0 => single_reply(rng, start, str_ids),
 			2 => gen_reply(rng, out, start, n, str_ids, Some(&perm_case.as_ref().unwrap().1), None),
+			3 => {
+				let idj = if str_ids { format!("\"{start}\"") } else { start.to_string() };
+				if rng.chance(1, 4) {
+					format!("{{\"jsonrpc\":\"2.0\",\"id\":{idj},\"error\":{}}}", odd_error(rng))
+				} else {
+					format!("{{\"jsonrpc\":\"2.0\",\"id\":{idj},\"result\":\"S{start}\"}}")
+				}
+			}
 			_ => gen_reply(rng, out, start, n, str_ids, None, ty),
 		};
-		lines.push(format!("cl deliver {}", hexs(&text)));
+		lines.push(deliver_line(rng, &text, |k| out.count(k)));
 		if rng.chance(1, 15) {
+			out.count("second.same-reply-again");
 			lines.push(format!("cl deliver {}", hexs(&text))); // duplicate answer
 		}
 	}
@@ -665,14 +798,43 @@ fn gen_ws_case(rng: &mut Rng, out: &mut Out, caseno: u64, perm_case: Option<(usi
 
 fn gen_http_case(rng: &mut Rng, out: &mut Out, caseno: u64, perm_case: Option<(usize, Vec<usize>)>) -> Vec<String> {
 	let str_ids = rng.chance(1, 3);
-	let mut lines = vec![format!("case {caseno} httpc {}", if str_ids { "str" } else { "num" })];
+	let hopts = match rng.below(4) {
+		0 => {
+			out.count("config.http.max-concurrent-1");
+			" mc=1"
+		}
+		1 => {
+			out.count("config.http.max-concurrent-2+timeout-small");
+			" mc=2,t=60"
+		}
+		2 => {
+			out.count("config.http.timeout-huge");
+			" t=1000000000"
+		}
+		_ => {
+			out.count("config.http.default");
+			""
+		}
+	};
+	let mut lines = vec![format!("case {caseno} httpc {}{hopts}", if str_ids { "str" } else { "num" })];
 	let mut next_id = 0u64;
 	let k = if perm_case.is_some() { 1 } else { rng.range(1, 4) };
 	let pre = rng.below(3);
 	for _ in 0..pre {
 		let rid = if rng.chance(1, 6) { next_id + 1 } else { next_id };
-		lines.push(format!("hc call {}", hexs(&single_reply(rng, rid, str_ids))));
+		if rng.chance(1, 10) {
+			let idj = if str_ids { format!("\"{rid}\"") } else { rid.to_string() };
+			let (name, text) = near_miss(rng, &idj);
+			out.count(name);
+			lines.push(format!("hc callx {}", hexs(&text)));
+		} else {
+			let t = single_reply(rng, rid, str_ids);
+			lines.push(format!("hc call {}", hexs(&maybe_respell(rng, &t, |k| out.count(k)))));
+		}
 		next_id += 1;
+		if rng.chance(1, 4) {
+			lines.push((*rng.pick(&["hc notify", "hc subscribe"])).to_string());
+		}
 	}
 	for _ in 0..k {
 		match &perm_case {
@@ -683,10 +845,31 @@ fn gen_http_case(rng: &mut Rng, out: &mut Out, caseno: u64, perm_case: Option<(u
 			None => {
 				let n = rng.range(1, 5) as usize;
 				let ty = pick_type(rng, false);
-				let r = if rng.chance(1, 25) { "{\"not\":\"an array\"}".to_string() } else { gen_reply(rng, out, next_id, n, str_ids, None, ty) };
-				match ty {
-					Some((t, _)) => lines.push(format!("hc tbatch {t} {n} {}", hexs(&r))),
-					None => lines.push(format!("hc batch {n} {}", hexs(&r))),
+				if rng.chance(1, 12) {
+					let r = gen_near_reply(rng, out, next_id, n, str_ids);
+					match ty {
+						Some((t, _)) => lines.push(format!("hc tbatchx {t} {n} {}", hexs(&r))),
+						None => lines.push(format!("hc batchx {n} {}", hexs(&r))),
+					}
+				} else {
+					let r = if rng.chance(1, 25) { "{\"not\":\"an array\"}".to_string() } else { gen_reply(rng, out, next_id, n, str_ids, None, ty) };
+					let r = maybe_respell(rng, &r, |k| out.count(k));
+					match ty {
+						Some((t, _)) => lines.push(format!("hc tbatch {t} {n} {}", hexs(&r))),
+						None => lines.push(format!("hc batch {n} {}", hexs(&r))),
+					}
+					if rng.chance(1, 8) {
+						// the second time: the same batch, the same reply (its ids are those of the first batch)
+						out.count("second.identical-batch");
+						next_id += 1;
+						match ty {
+							Some((t, _)) => lines.push(format!("hc tbatch {t} {n} {}", hexs(&r))),
+							None => lines.push(format!("hc batch {n} {}", hexs(&r))),
+						}
+					}
+				}
+				if rng.chance(1, 5) {
+					lines.push((*rng.pick(&["hc notify", "hc subscribe"])).to_string());
 				}
 			}
 		}
